@@ -262,6 +262,36 @@ fn unicode_templates(sink: &Sink) -> Tally {
         .reduce(Tally::default, Tally::merge)
 }
 
+/// Valid texts padded to great lengths: a valid text followed or preceded by 1..=1100 copies of a
+/// pad character (and by 2^k - len +- 2 copies up to 2^17): lengths that wrap in a narrow integer
+/// must not turn a long string into an accepted value.
+fn padded_texts(sink: &Sink) -> Tally {
+    let bases: [&str; 8] = ["e2e4", "a7a8q", "h1", "e", "4", "q", "w", "b"];
+    let pads: [char; 6] = [' ', '0', 'a', '\u{e9}', '\u{20ac}', '\u{1f600}'];
+    let jobs: Vec<(usize, usize)> = (0..bases.len()).flat_map(|b| (0..pads.len()).map(move |p| (b, p))).collect();
+    jobs.par_iter()
+        .fold(Tally::default, |mut t, &(bi, pi)| {
+            let base = bases[bi];
+            let pad = pads[pi];
+            let mut counts: Vec<usize> = (1..=1100).collect();
+            for k in 11..=17u32 {
+                for d in 0..=8usize {
+                    counts.push(((1usize << k) + 4).saturating_sub(d) / pad.len_utf8());
+                }
+            }
+            for n in counts {
+                let run: String = std::iter::repeat(pad).take(n).collect();
+                for text in [format!("{}{}", base, run), format!("{}{}", run, base), format!("{}{}{}", base, run, base)] {
+                    t.states += 1;
+                    t.evals += 1;
+                    all_types(&text, sink, &mut t);
+                }
+            }
+            t
+        })
+        .reduce(Tally::default, Tally::merge)
+}
+
 fn values(sink: &Sink) -> Tally {
     // every value with a legal shape survives format -> parse
     let mut t = Tally::default();
@@ -359,6 +389,9 @@ pub fn run(run: &mut Run) {
     let t0 = Instant::now();
     let t = unicode_templates(&run.sink);
     run.add("T-UNITEMPLATE", json!({"templates": ["e2e4", "a7a8q", "h1", "e", "4", "q"], "edit": "every position substituted by / inserted with every Unicode scalar value"}), true, t0, t);
+    let t0 = Instant::now();
+    let t = padded_texts(&run.sink);
+    run.add("T-PAD", json!({"bases": ["e2e4", "a7a8q", "h1", "e", "4", "q", "w", "b"], "pad_characters": "space 0 a U+E9 U+20AC U+1F600 (1 to 4 bytes)", "pad_counts": "1..=1100 and the byte lengths 2^k + 4 - d (k = 11..17, d = 0..8)", "position": "after, before, between two copies", "types": 6}), true, t0, t);
     let t0 = Instant::now();
     let t = values(&run.sink);
     run.add("P-VALUES", json!({"moves": 64 * 64 * 5}), true, t0, t);
